@@ -128,3 +128,53 @@ for A in range(size):
             bad.append({'A': A, 'B': B, 'k0': float(k0[A, B]), 'energy_hessian': H})
 out = {'size': size, 'n_mismatch': len(bad), 'first': bad[:8]}
 """
+
+FEXT = COMMON + r'''
+cc = make(payload)
+cc.pdC = payload.get('pdC', False); cc.pdT = payload.get('pdT', False)
+cc.Fc = None
+cc.T = payload.get('T', 0.); cc.P = payload.get('P', 0.)
+cc._rebuild()
+if payload.get('Nxxtop') is not None:
+    cc.Nxxtop = np.array(payload['Nxxtop'], dtype=float)
+for f in payload.get('forces', []):
+    cc.add_force(*f)
+fext = np.asarray(cc.calc_fext(inc=1., silent=True)).ravel()
+md = get_model(cc.model)
+size = cc.get_size()
+dofs = md['dofs']
+g = np.zeros((dofs, size))
+def G(x, t):
+    md['commons'].fg(g, cc.m1, cc.m2, cc.n2, cc.r2, x, t, cc.L, cc.cosa, cc.tLArad)
+    return g.copy()
+nt = 720
+ts = np.linspace(0, 2*np.pi, nt, endpoint=False)
+spec = np.zeros(size)
+Nx = np.asarray(cc.Nxxtop, dtype=float)
+for t in ts:
+    g0 = G(0., t)
+    nxx = Nx[0] + sum(Nx[1+2*(j-1)]*np.sin(j*t) + Nx[2+2*(j-1)]*np.cos(j*t) for j in range(1, cc.n2+1))
+    if not cc.pdC:
+        spec += nxx*g0[0]*cc.r2*(2*np.pi/nt)
+    if not cc.pdT:
+        spec += cc.T/(2*np.pi*cc.r2**2)*g0[1]*cc.r2*(2*np.pi/nt)
+if cc.P != 0:
+    nx = 401
+    xs = np.linspace(0, cc.L, nx); w = np.ones(nx); w[1:-1:2] = 4; w[2:-1:2] = 2; w *= (xs[1]-xs[0])/3.
+    for t in ts[::8]:
+        for x, wx in zip(xs, w):
+            spec += cc.P*G(x, t)[2]*(cc.r2 + x*cc.sina)*wx*(2*np.pi/(nt/8))
+for (x, thetadeg, fx, ft, fz) in payload.get('forces', []):
+    gg = G(x, np.deg2rad(thetadeg))
+    spec += fx*gg[0] + ft*gg[1] + fz*gg[2]
+free = [k for k in range(size) if k not in cc.excluded_dofs]
+spec_u = spec[free]
+if cc.pdC:
+    spec_u = spec_u - cc.uTM*np.asarray(cc.k0uk)[:, 0]
+if cc.pdT:
+    spec_u = spec_u - cc.thetaTrad*np.asarray(cc.k0uk)[:, 1]
+scale = max(abs(spec_u).max(), abs(fext).max(), 1e-30)
+bad = [{'amplitude': int(free[k]), 'calc_fext': float(fext[k]), 'virtual_work': float(spec_u[k])} for k in range(len(free))
+       if abs(fext[k] - spec_u[k]) > 1e-6*scale]
+out = {'n_mismatch': len(bad), 'first': bad[:8], 'size': size}
+'''
